@@ -445,9 +445,10 @@ func (e *Engine) crashEnum(in *Inst, img0 map[string][]byte, j []common.JournalO
 		}
 		img := common.ApplyJournal(img0, j, n)
 		if _, ok := img["headers/branches/index"]; !ok {
-			// never saved: Load takes the migration path; nothing to hold it to
+			// no Save has completed yet: Load takes the migration path. It must still succeed and
+			// report a linked chain of accepted headers from genesis (genesis alone is fine: the
+			// work at the last completed Save is zero)
 			e.Crash.ByKind["no-index-yet"]++
-			continue
 		}
 		e.Crash.Images++
 		e.Crash.ByKind[opname+":"+next]++
